@@ -2001,7 +2001,7 @@ func (sc *serverConn) writeLoop() {
 }
 
 func (sc *serverConn) handleSettings(st *Settings) {
-	st.CopyTo(&sc.clientS)
+	st.applyTo(&sc.clientS)
 	sc.enc.SetMaxTableSize(sc.clientS.HeaderTableSize())
 
 	// The per-stream send windows are adjusted in handleStreams, where the
